@@ -25,7 +25,7 @@ STATEMENT = ('perdictable(f, on=keys) returns f(...) itself for scalar inputs; w
              '(scalars broadcast), sorted by key, valued f(that key\'s values); inputs named in defaults are outer-joined with their default; '
              'rows with a supplied previous value and an expiry in the past keep it without a call of f, all other rows are computed exactly once')
 LEAN_FILES = ['Basic', 'Cmp', 'Sort', 'TableBasic', 'Join', 'PerDict', 'PerDictDriver', 'Tri', 'CmpLemmas', 'JoinLemmas', 'PerDictLemmas', 'UnlistLemmas', 'PivotLemmas', 'GroupLemmas', 'C02', 'C07', 'C20',
-              'KeyedRows', 'PerDictSem', 'PerDictStep', 'PerDictFold', 'PerDictTables', 'PerDictItem', 'PerDictJoin', 'PerDictTotal',
+              'KeyedRows', 'PerDictSem', 'PerDictStep', 'PerDictFold', 'PerDictTables', 'PerDictItem', 'PerDictJoin', 'PerDictTotal', 'PerDictRename',
               'PygModel/Table.lean', 'TableLemmas', 'TableRect', 'TableRows']
 RULE = 'distinct protocol lines (one lifted call) with at least one table input on which the implementation returned'
 TRUSTED = ['correspondence harness (pv.engine, pv.proto) and generators / reference evaluation of pv.props.c20',
